@@ -73,6 +73,8 @@ type thread struct {
 	done  bool
 	names []string
 	rng   *simrt.Tape // private choice stream (isolation runs), else nil
+	// lastTag: tag of this thread's previous request once it was answered
+	lastTag uint16
 }
 
 var wlNames = []string{"a", "b", "c", "d"}
@@ -422,11 +424,20 @@ func runRandomWorkload(rcx *RunCtx, o workloadOpts) {
 				for k := 0; k < th.nops; k++ {
 					m, upd := th.genOp(o)
 					var req *FrameRec
+					// adversarial tags: re-use the tag of the request that was
+					// just answered, right away
+					newTag := func() uint16 {
+						if o.Flush && th.lastTag != 0 && simrt.Choose(2) == 0 {
+							rcx.Count("tags.reused_immediately", 1)
+							return th.lastTag
+						}
+						return th.conn.Tag()
+					}
 					if o.BadFrames && simrt.Choose(12) == 0 {
 						// in place of the drawn request
 						upd = nil
 						nf := len(th.conn.Mon.Req.Frames)
-						th.conn.SendRaw(badFrame(th.conn.Tag(), simrt.Choose(4)))
+						th.conn.SendRaw(badFrame(newTag(), simrt.Choose(4)))
 						rcx.Count("undecodable_requests", 1)
 						if len(th.conn.Mon.Req.Frames) > nf {
 							req = th.conn.Mon.Req.Frames[len(th.conn.Mon.Req.Frames)-1]
@@ -436,7 +447,7 @@ func runRandomWorkload(rcx *RunCtx, o workloadOpts) {
 						// another thread that is in flight right now, of an
 						// answered tag, of an idle tag, or of its own tag
 						upd = nil
-						tag := th.conn.Tag()
+						tag := newTag()
 						old := uint16(40000 + simrt.Choose(100)) // idle
 						switch simrt.Choose(4) {
 						case 0, 1:
@@ -458,7 +469,7 @@ func runRandomWorkload(rcx *RunCtx, o workloadOpts) {
 						rcx.Count("flush.sent", 1)
 						req = th.conn.Send(tag, &rc.Tflush{OldTag: old})
 					} else {
-						req = th.conn.Send(th.conn.Tag(), m)
+						req = th.conn.Send(newTag(), m)
 					}
 					if req == nil {
 						break
@@ -467,6 +478,7 @@ func runRandomWorkload(rcx *RunCtx, o workloadOpts) {
 					if req.Reply == nil {
 						break
 					}
+					th.lastTag = req.Tag
 					if upd != nil {
 						upd(req.Reply.Msg)
 					}
